@@ -600,7 +600,9 @@ reg(Spec(
     rule=("case k -> spline orders (k mod 5, (k div 5) mod 5), weight degree "
           "(k div 25) mod 4, quadrature size n in {n_min-1, n_min, n_min+1, "
           "2*max order} with n_min the smallest n with 2n-1 >= o1+o2+d "
-          "(compiled catalogue n = 1..8), 12 relative placements of the two "
+          "(compiled catalogue n = 1..8; every eighth case from a second "
+          "catalogue with orders 5 and 6 and n = 7..32), 12 relative "
+          "placements of the two "
           "windows on a grid of 6..10 points (second spline on the same grid "
           "object or an equal twin), general dyadic coefficients and weights. "
           "The weight is a probe callable that records every abscissa it is "
@@ -617,6 +619,8 @@ reg(Spec(
               "no-common-interval"] +
              ["place:" + p for p in PLACEMENTS] +
              ["n:%d" % i for i in range(1, 9)] +
+             ["n:%d" % i for i in (9, 10, 12, 16, 20, 32)] +
+             ["wide-catalogue", "orders:6,6"] +
              ["weight-degree:%d" % i for i in range(4)],
     assumptions=[DYADIC, "float, double, long double (boost's Gauss-Legendre "
                  "needs a floating type)"],
@@ -663,7 +667,12 @@ reg(Spec(
           "generator, isZero on five instantiations, linearCombination, "
           "getData/findElement, comparisons across grid objects, combining "
           "shared objects with a thread-private equal grid, support algebra, "
-          "numerical quadrature; seed-chosen sched_yield/nanosleep between "
+          "numerical quadrature, interpolation of shared data with the bundled "
+          "solver, eleven kinds of calls that must be refused (exception paths "
+          "run concurrently; outcome and message length are part of the "
+          "digest), template arguments no other action uses (X<6>, X<8>, "
+          "Dx<4>, Dx<6>, generateBSplines<1>, <5>, cross-order assignment); "
+          "seed-chosen sched_yield/nanosleep between "
           "calls. Oracle 1: ThreadSanitizer (any report fails). Oracle 2: each "
           "thread's digest of all result bit patterns equals the digest of the "
           "same script run sequentially AFTER the concurrent phase. Runs are "
@@ -677,7 +686,10 @@ reg(Spec(
               "overlap:apply-X|apply-X", "overlap:compare|own-grid-instance",
               "overlap:copy-destroy|copy-destroy",
               "overlap:bilinear-form|bilinear-form",
-              "overlap:generateBSplines|isZero"],
+              "overlap:generateBSplines|isZero",
+              "overlap:interpolate|interpolate",
+              "overlap:refused-calls|refused-calls",
+              "overlap:rare-instantiations|rare-instantiations"],
     assumptions=["TSan's happens-before analysis covers the code paths that "
                  "were executed concurrently; the overlap counts are evidence "
                  "of stress, not the detector", "x86-64, g++ 12 (clang 14 in "
@@ -1012,7 +1024,10 @@ reg(Spec(
           "coefficients, a+b, a-b, a*b, c*a, X<4>, Dx<2>, the chain "
           "((x d/dx - d/dx x + x^2 d^2/dx^2)(x-3)), evaluations next to every "
           "knot and outside the support, ScalarProduct, BilinearForm{X<2>,"
-          "Dx<1>}, LinearForm{X<3>}. Bound: sum_j|c^_j-c_j|h^j <= 2^20 eps "
+          "Dx<1>}, LinearForm{X<3>}; a general order-6 spline with "
+          "full-mantissa coefficients goes through evaluation (incl. interval "
+          "ends), X<1>, X<3>, Dx<1>, Dx<5>, sum, LinearForm{}, LinearForm{X<1>}, "
+          "ScalarProduct and BilinearForm{X<1>,Dx<1>}. Bound: sum_j|c^_j-c_j|h^j <= 2^20 eps "
           "sum_j S_j h^j per interval (S = absolute interpretation of the "
           "defining formula over the direct operands; generated B-splines: "
           "|c_j|), analogous for scalars; NaN/inf is a violation. Each case "
@@ -1026,7 +1041,10 @@ reg(Spec(
               "checked:product", "checked:X<4>", "checked:expression-chain",
               "checked:evaluate", "checked:evaluate-outside",
               "checked:scalar-product", "checked:bilinear-form",
-              "checked:linear-form", "digest-pairs-compared"],
+              "checked:linear-form", "checked:evaluate-order6",
+              "checked:X<3>-order6", "checked:Dx<5>-order6",
+              "checked:linear-form-order6", "checked:bilinear-form-order6",
+              "digest-pairs-compared"],
     assumptions=[DYADIC, "x86-64: SSE2 for float/double, x87 for long double, "
                  "no FMA contraction; bit-equality across optimisation levels "
                  "is not demanded, only the bound"],
